@@ -113,11 +113,11 @@ def run_uf(case):
                 c = enc(r)
                 return ["elt", c] if c is not None else ["other", "uf[%d] returned %r" % (op[1], r)]
             elif name == "add":
-                r = uf.add(*args)
-                return ["none"] if r is None else ["other", repr(r)]
+                uf.add(*args)      # whatever add/union return is free
+                return ["none"]
             elif name == "union":
-                r = uf.union(*args)
-                return ["none"] if r is None else ["other", repr(r)]
+                uf.union(*args)
+                return ["none"]
             elif name == "find":
                 r = uf.find(*args)
                 e = uf[r]
@@ -126,16 +126,16 @@ def run_uf(case):
                 return ["elt", c] if (fix and c is not None) else ["other", "find returned a non-root"]
             elif name == "connected":
                 r = uf.connected(*args)
-                return ["bool", bool(r)] if isinstance(r, (bool,)) or type(r).__name__ == "bool_" else ["other", repr(r)]
+                return ["bool", bool(r)]   # the type of the truth value is free
             elif name == "component":
                 r = uf.component(*args)
-                o = enc_set(r) if isinstance(r, (set, frozenset)) else ["other", repr(r)]
+                o = enc_set(list(r))   # any iterable of the elements
                 if isinstance(r, set):
                     r.clear()   # the caller may do what it likes with the answer
                 return o
             elif name == "roots":
                 r = uf.roots()
-                o = enc_set([uf[int(i)] for i in r]) if isinstance(r, (set, frozenset)) else ["other", repr(r)]
+                o = enc_set([uf[int(i)] for i in list(r)])
                 if isinstance(r, set):
                     r.clear()
                 return o
@@ -170,18 +170,13 @@ def run_uf(case):
             elif name == "ncomps":
                 return ["nat", int(uf.n_comps)]
             elif name == "contains":
-                return ["bool", args[0] in uf]
+                return ["bool", bool(args[0] in uf)]
             else:
                 raise RuntimeError("unknown op " + name)
-        except IndexError:
-            return ["indexerror"]
-        except ValueError as ex:
-            # the documented error for an absent element is ValueError('... is not an element')
-            if "is not an element" in str(ex):
-                return ["valueerror"]
-            return ["other", "ValueError: %s" % ex]
         except Exception as ex:  # noqa
-            return ["other", "%s: %s" % (type(ex).__name__, ex)]
+            # a refusal: whether it is legitimate is decided by the oracle from the input alone; the class and the
+            # message are recorded for information only
+            return ["raised", type(ex).__name__, str(ex)[:80]]
 
     try:
         uf, order = build_uf(UnionFind, objs, enc, case.get("init"))
@@ -278,22 +273,20 @@ def run_pq(case):
                     r = pq.push(x, w) if k % 3 == 0 else (pq.push(x, w=w) if k % 3 == 1 else pq.push(x=x, w=w))
                 finally:
                     register(op[1])
-                o = ["none"] if r is None else ["other", repr(r)]
+                o = ["none"]   # whatever push returns is free
             elif name in ("pop", "get"):
                 it = pq.pop() if name == "pop" else pq.get()
-                o = ["item", code_of(it), pr(it.priority)]
+                o = ["noitem"] if it is None else ["item", code_of(it), pr(it.priority)]
             elif name == "empty":
-                r = pq.empty()
-                o = ["bool", bool(r)] if isinstance(r, bool) else ["other", repr(r)]
+                o = ["bool", bool(pq.empty())]
             elif name == "front":
                 it = pq.front
-                o = ["item", code_of(it), pr(it.priority)]
+                o = ["noitem"] if it is None else ["item", code_of(it), pr(it.priority)]
             else:
                 raise RuntimeError(name)
-        except IndexError:
-            o = ["indexerror"]
         except Exception as ex:  # noqa
-            o = ["other", "%s: %s" % (type(ex).__name__, ex)]
+            # a refusal of any class; the oracle decides from the input whether it is legitimate
+            o = ["raised", type(ex).__name__, str(ex)[:80]]
         out.append([o, data()])
     return out
 
